@@ -71,6 +71,7 @@ fn main() {
         "C14" => c14::run(tier, replay),
         "C15" => c15::run(tier, replay),
         "C16" => c16::run(tier, replay),
+        "c17-emfile" => c17::child_emfile(),
         "c16-fd" => c16::child_fd(if args[2] == "thorough" { zvcore::evidence::Tier::Thorough } else { zvcore::evidence::Tier::Quick }),
         "C17" => c17::run(tier, replay),
         "C18" => c18::run(tier, replay),
